@@ -111,6 +111,8 @@ def run_case(ctx, nix, np, path, rng, rep):
         def check(tag):
             ctx.count("table_checks")
             ctxt = "+".join(sorted(flags)) or "plain"
+            if tag.startswith("refused:"):
+                ctxt = "after_%s:%s" % (tag, ctxt)
             try:
                 if tuple(df.column_names) != tuple(c[0] for c in cols):
                     bad("column_names:wrong:%s" % ctxt, after=tag, got=list(df.column_names), expected=[c[0] for c in cols])
@@ -227,7 +229,22 @@ def run_case(ctx, nix, np, path, rng, rep):
                     if rng.random() < 0.3:
                         idx = [rng.choice([0, len(rows) - 1])]
                     new = [mkrow() for _ in idx]
-                    df.write_rows(new, idx)
+                    if len(idx) >= 2 and rng.random() < 0.35:
+                        # row indices in another order: either refused (the table stays as it is - judged by the check below)
+                        # or every row lands at the index it was given for
+                        order = list(range(len(idx)))
+                        while order == sorted(order):
+                            rng.shuffle(order)
+                        idx = [idx[k] for k in order]
+                        kinds[-1] = "write_rows_unsorted_index"
+                        try:
+                            df.write_rows(new, idx)
+                            ctx.count("write_rows_unsorted_index:accepted")
+                        except Exception:
+                            ctx.count("write_rows_unsorted_index:refused")
+                            new, idx = [], []
+                    else:
+                        df.write_rows(new, idx)
                     for i, r in zip(idx, new):
                         rows[i] = r
                 elif op == "write_column_name":
@@ -276,10 +293,16 @@ def run_case(ctx, nix, np, path, rng, rep):
                     handles = [df, b.data_frames["df"]]
                     handles[1][:] if len(handles[1]) else None
                 elif op == "refused":
-                    k = rng.choice(["rows_len", "col_len", "unknown_col", "oob_row", "dup_col"])
+                    k = rng.choice(["rows_len", "col_len", "unknown_col", "oob_row", "dup_col", "col_value"])
                     kinds[-1] = "refused:" + k
-                    if k in ("col_len", "unknown_col", "dup_col") and not rows:
+                    if k in ("col_len", "unknown_col", "dup_col", "col_value") and not rows:
                         continue
+                    if k == "col_value":
+                        # a column whose LAST value cannot be converted to the column's type (text into a number column)
+                        numeric = [i for i, (_, t) in enumerate(cols) if t in ("int", "float", "small")]
+                        if not numeric or len(rows) < 2:
+                            continue
+                        bad_ci = rng.choice(numeric)
                     try:
                         if k == "rows_len":
                             # the faulty row is the only one, or comes after well-formed rows of the same batch
@@ -294,6 +317,12 @@ def run_case(ctx, nix, np, path, rng, rep):
                             df.write_rows([mkrow()], [len(rows) + rng.randint(0, 2)])
                         elif k == "dup_col":
                             df.append_column([1 for _ in rows], cols[0][0], datatype=nix.DataType.Int64)
+                        elif k == "col_value":
+                            vals = [spec[cols[bad_ci][1]][1]() for _ in rows[:-1]] + ["not a number"]
+                            if rng.random() < 0.5:
+                                df.write_column(vals, name=cols[bad_ci][0])
+                            else:
+                                df.write_column(vals, index=bad_ci)
                         bad("refused:%s:accepted" % k)
                     except Exception:
                         ctx.count("refused_writes")
